@@ -7,4 +7,5 @@ Require Import ExtrOcamlBasic.
 Extraction Language OCaml.
 Extraction "clustermodel.ml" byte_of_N byte_to_N
   encode_proposal decode_proposal pinned_roundtrip id_plain cluster_filter is_rconf
-  number window entries_to_apply publish ready_step ready_run.
+  number_log log_window entries_to_apply publish_entries ready_step ready_run
+  z_to_dec exec empty_db.
